@@ -1,6 +1,9 @@
 package harness
 
-import "fmt"
+import (
+	"fmt"
+	"strings"
+)
 
 // simpleGet builds a minimal well-formed GET lane whose response is what matters.
 func simpleGet(r *RNG, rid int, resp *Resp) Lane {
@@ -56,7 +59,14 @@ func GenC06(r *RNG) *SrvPlan {
 	return p
 }
 
-func c06Online(w *SrvWorld) *Violation { return w.LedgerViol }
+// c06Online reports a ledger violation as soon as it is seen — except the acknowledged-decrease kind,
+// which is held back to the end of the run so that a different violation later in the same run wins.
+func c06Online(w *SrvWorld) *Violation {
+	if w.LedgerViol != nil && strings.HasSuffix(w.LedgerViol.Sig, "/after-acked-decrease") {
+		return nil
+	}
+	return w.LedgerViol
+}
 
 // c06Final: with the peer granting everything in the drain phase, every response must have completed, exactly.
 func c06Final(w *SrvWorld) *Violation {
